@@ -948,7 +948,7 @@ def check(tier, seed):
         'peers are not established (no sync-mode waiting, eor/route-refresh are refused); `system crash`, daemon reload/restart/shutdown, '
         'peer create/delete and `system api version` are not generated',
     ]
-    common.standard_build(run, ['T7'])
+    common.standard_build(run, ['T7', 'T14'])
     rng = random.Random(seed)
     quick = tier == 'quick'
 
